@@ -179,6 +179,27 @@ def r5(ctx, R):
         R.check(ok, f'{spec[1]}.it_check :: compute_end_point() precedes post_step in the done arm', h.where, 'uend final before the step is reported', f'{len(cep)} end-point call(s)')
 
 
+def sweep_count_checks(R, spec, h):
+    """the number of sweeps on level X is taken from level X (self.nsweeps[X] / levels[X].params.nsweeps)"""
+    for n, c in h.calls('update_nodes'):
+        recv = ast.unparse(c.func.value)
+        m = re.fullmatch(r'(?:self\.)?S\.levels\[(.+)\]\.sweep', recv)
+        lvl = m.group(1) if m else None
+        rl = [l for l in h.cfg.loops_of[id(h.cfg.stmt_of[n])]
+              if isinstance(l, ast.For) and isinstance(l.iter, ast.Call) and ast.unparse(l.iter.func) == 'range' and 'nsweeps' in ast.unparse(l.iter)]
+        if not rl or lvl is None:
+            continue
+        arg = ast.unparse(rl[-1].iter.args[0])
+        if arg == 'nsweeps':
+            # the definition that reaches this loop: the last one before it in source order
+            d = [a for a in walk_no_nested(h.fn) if isinstance(a, ast.Assign) and ast.unparse(a.targets[0]) == 'nsweeps' and a.lineno < rl[-1].lineno]
+            d.sort(key=lambda a: a.lineno)
+            arg = ast.unparse(d[-1].value) if d else arg
+        mm = re.fullmatch(r'self\.nsweeps\[(.+)\]', arg) or re.fullmatch(r'self\.S\.levels\[(.+)\]\.params\.nsweeps', arg)
+        src_lvl = mm.group(1) if mm else None
+        R.check(src_lvl == lvl, f'{spec[1]}.{h.name} :: number of sweeps on level {lvl} is taken from that level', h.where, f'range(nsweeps of level {lvl})', arg)
+
+
 @rule('C07', 'C07.R6', 'every sweep in an iteration handler is bracketed by pre_sweep ... compute_residual, post_sweep for the same level', floor=13)
 def r6(ctx, R):
     for spec in ct.ALL:
@@ -211,6 +232,7 @@ def r6(ctx, R):
                     continue
                 ok = len(pre) == 1 and len(post) == 1 and len(res) == 1 and h.cfg.dominates(pre[0], n) and h.cfg.dominates(n, res[0]) and h.cfg.dominates(res[0], post[0]) and h.cfg.postdominates(post[0], n)
                 R.check(ok, f'{spec[1]}.{h.name} :: pre_sweep({lvl}) -> update_nodes -> compute_residual -> post_sweep({lvl})', h.where, 'one bracket per sweep, same level, same block', f'pre {len(pre)}, residual {len(res)}, post {len(post)}')
+            sweep_count_checks(R, spec, h)
             if stage == 'IT_COARSE':
                 ok = len(ups) == 1 and not any(isinstance(l, ast.For) and isinstance(l.iter, ast.Call) and ast.unparse(l.iter.func) == 'range' for l in h.cfg.loops_of[id(h.cfg.stmt_of[ups[0][0]])])
                 ok = ok and not any('status' in g for g in h.guard_strs(ups[0][0]) if 'force_done' not in g)
@@ -273,15 +295,25 @@ def r7(ctx, R):
             else:
                 ok = bool(writes) and h.cfg.must_pass(ENTRY, EXIT, writes + interrupts)
             R.check(ok, f'{spec[1]}.{h.name} :: a stage is assigned on every normal path, for every running step', h.where, 'no path (and no step) leaves the handler in the old stage', f'{len(writes)} stage write(s)')
-            if stage != 'IT_CHECK':
-                bad = []
-                for n, v, g, s in ws:
-                    for x in h.guard_strs(n):
-                        if 'force_done' in x:
-                            continue
-                        if '.status.' in x:
-                            bad.append(x)
-                R.check(not bad, f'{spec[1]}.{h.name} :: stage choice independent of per-step status', h.where, 'guards mention no step/level status (only len(S.levels), number of running steps, parameters)', bad)
+            # names whose value derives from a status field (taint through local definitions)
+            tainted = set()
+            for _ in range(3):
+                for a in walk_no_nested(h.fn):
+                    if isinstance(a, ast.Assign) and len(a.targets) == 1 and isinstance(a.targets[0], ast.Name):
+                        src_ = ast.unparse(a.value)
+                        if '.status.' in src_ or any(re.search(rf'\b{re.escape(t)}\b', src_) for t in tainted):
+                            tainted.add(a.targets[0].id)
+            bad = []
+            for n, v, g, s in ws:
+                for x in h.guard_strs(n):
+                    if 'force_done' in x:
+                        continue
+                    own_done = re.fullmatch(r'(not \()*(not )?\(?(self\.)?S\.status\.done\)*', x) is not None
+                    if stage == 'IT_CHECK' and own_done:
+                        continue  # the done / not-done branch of the step itself is the purpose of IT_CHECK
+                    if '.status.' in x or any(re.search(rf'\b{re.escape(t)}\b', x) for t in tainted):
+                        bad.append(x)
+            R.check(not bad, f'{spec[1]}.{h.name} :: stage choice independent of per-step status' + (' (apart from the done/not-done branch of the step itself)' if stage == 'IT_CHECK' else ''), h.where, 'guards mention no step/level status, directly or through a local (only len(S.levels), number of running steps, parameters)', bad)
         # the driver: unknown stage raises; serial drivers raise when the running steps disagree
         w = f'{spec[0]}:{spec[1]}.{spec[2]}'
         R.fn(w)
